@@ -155,6 +155,37 @@ def gen_cases(rng, tier, boost=1):
             prec = 1
         cases.append("F 0 %d %d %d -" % (fmt, prec, dl.dbits(x)))
         dist["dec5"] += 1
+    # short mantissas m * 2^k (m odd, at most 10 bits), every binary exponent incl. subnormals: the product with
+    # powers of five crosses a limb boundary with very few bits to spare, which is where the early drop of
+    # low 64-bit words in realToString loses accuracy (D94) and where a wrong drop guard empties the number
+    nshort = (2500 if tier == "quick" else 60000) * boost
+    dist["short_mantissa_double"] = dist["short_mantissa_float"] = dist["tiny_float"] = 0
+    hot_p = [16, 17, 18, 19, 20, 35, 36, 37, 38, 39, 40]
+    for _ in range(nshort):
+        m = rng.randrange(1, 1024) | 1
+        if rng.random() < 0.5:
+            m = rng.randrange(1, 64) | 1
+        k = rng.randrange(-1074, 971 - m.bit_length())
+        bits = dl.dbits(math.ldexp(float(m), k))
+        pp = rng.choice(hot_p) if rng.random() < 0.7 else rng.randrange(0, 41)
+        cases.append("F 0 %d %d %d -" % (rng.randrange(3), pp, bits))
+        dist["short_mantissa_double"] += 1
+    for _ in range(nshort // 2):
+        m = rng.randrange(1, 1024) | 1
+        if rng.random() < 0.5:
+            m = rng.randrange(1, 64) | 1
+        k = rng.randrange(-149, 128 - m.bit_length())
+        x = math.ldexp(float(m), k)
+        pp = rng.choice(hot_p) if rng.random() < 0.7 else rng.randrange(0, 41)
+        cases.append("G 0 %d %d %d -" % (rng.randrange(3), pp, dl.fbits(x)))
+        dist["short_mantissa_float"] += 1
+    for _ in range(nshort // 2):
+        # subnormal and tiny floats (any mantissa) at 30..40 digits
+        b = rng.getrandbits(23) if rng.random() < 0.6 else (rng.randrange(1, 40) << 23) | rng.getrandbits(23)
+        if b == 0:
+            b = 1
+        cases.append("G 0 %d %d %d -" % (rng.randrange(3), rng.randrange(30, 41), b))
+        dist["tiny_float"] += 1
     for _ in range(nf):
         b = dl.rand_float_bits(rng)
         cases.append("G %d %d %d %d %s" % (rng.choice([0, 0, 1, 2]), rng.randrange(3), rng.choice([0, 1, 2, 6, 9, rng.randrange(0, 41)]), b, rng.choice(PREFIXES)))
@@ -216,7 +247,7 @@ def check(tier):
         "theorems": [{"name": n, "assumptions": a} for n, a in theorems],
         "evaluations": len(cases),
         "distinct_nontrivial": len({c for c in cases if nontrivial(c)}),
-        "rule": "doubles: uniform bit patterns, per binade, mantissa edges, subnormals, 10^k and 2^k +- 3 ulp, decimal-looking values, x.5 halves, integers, dyadic rationals m/2^k, integers with a 5 at the rounding position (exact ties and near-ties), exponents at which realToString drops whole 64-bit words; floats likewise; precision 0..40 x Default/Fixed/SemiFixed; destination streams empty and non-empty; char / char16_t / char32_t; integers of 8/16/32/64 bits, signed and unsigned, boundaries and 10^k +- 2. non-trivial = value not +-0 / integer with at least two digits",
+        "rule": "doubles: uniform bit patterns, per binade, mantissa edges, subnormals, 10^k and 2^k +- 3 ulp, decimal-looking values, x.5 halves, integers, dyadic rationals m/2^k, integers with a 5 at the rounding position (exact ties and near-ties), exponents at which realToString drops whole 64-bit words, short mantissas m * 2^k (m odd < 1024) over all binary exponents incl. subnormals with emphasis on precisions 16..20 and 35..40, subnormal / tiny floats at 30..40 digits; floats likewise; precision 0..40 x Default/Fixed/SemiFixed; destination streams empty and non-empty; char / char16_t / char32_t; integers of 8/16/32/64 bits, signed and unsigned, boundaries and 10^k +- 2. non-trivial = value not +-0 / integer with at least two digits",
         "samples": [cases[0], cases[len(cases) // 2], cases[-1]],
         "input_distribution": dist,
         "traces_validated_against_impl": len(run.rows),
@@ -231,7 +262,7 @@ def check(tier):
         "theorems are about coq/DigitModel.v; the C++ is tied by gen/Tables_digit.v and the finite differential run reported here",
         "the claim 'text = printf reference for every double and precision' is NOT proved (Definition c10_real_matches_reference): after findings/D48 and D49 no counterexample is known; PROVED: the scaled big integer and the round_up flag are exact for every value with |value| >= 1 (c10_scale_exact_integer_path / c10_scale_exact_fraction_path_ge1); the digit run is the exact decimal expansion (c10_big_to_string_digits, c10_digit_run_exact_*) and the rounding decision is round-half-even on the exact value (c10_round_decision_is_half_even); NOT proved: values below 1 (early 64-bit word drops), the assembly of the text after the rounding decision (carry, zero give-back, point, padding) -- tested against the exact reference on every generated case",
         "BigInt is abstracted to its value (no overflow observed: the model reports an explicit error otherwise)",
-        "describes /repo with findings/D28, D33, D41..D46, D48, D49 applied (all fix: commits)",
+        "describes /repo with findings/D28, D33, D41..D46, D48, D49, D94 applied (all fix: commits)",
     ]
     return rep.finish()
 
